@@ -72,6 +72,15 @@ CLAIMS = {
         "viewport_to_world_no/zo (also composed through the real code) and picking_region is executed in both layouts on exact rationals (random small-integer pairs and rigid-view x real-projection "
         "pairs), recorded and recomputed by TLC; unprojected points are projected again on the specification and the pick matrix is tested against its axiom."),
   design="§6 C10, §12"),
+ "C12": dict(
+  technique="TLA+ spec (VekLerp, VekOps!LerpInt) with its laws model-checked by TLC; TLC-emitted integer tables replayed into the real code (spec->code); generic/quaternion/Transform/Transition interpolation recorded from the code and validated by TLC (code->spec)",
+  text=("TLC checks on the specification that the fast and precise formulas agree, hit the endpoints, are affine in the factor and extrapolate, that clamped = unclamped o clamp01, that the "
+        "constructive slerp stays unit, reaches both ends (far end up to sign) along the shorter arc in equal steps, and that LerpInt is the real value rounded to nearest with ties away from zero. "
+        "TLC prints LerpInt(from,to,j/8) for all  of i8/u8, all  (thorough; boundary set in quick) and 25 factors in [-1,2]; the harness runs the integer implementations (f32/f64 x fast/precise, "
+        "reference, range and clamped forms, scaled copies for the 8 wider integer types, vector lifts) on every entry. All Lerp forms of the 13 vector types (inherent/trait, value/reference, scalar/"
+        "per-element factor, range, clamped), float scalars on dyadic operands, unnormalised and normalised quaternion lerp, quaternion slerp (inherent/trait/ref/clamped; acute and obtuse pairs), "
+        "Transform lerp and all Transition accessors/constructors/mappers are recorded on exact rationals with token angles and recomputed by TLC."),
+  design="§6 C12, §12"),
  "C17": dict(
   technique="TLA+ spec (VekOps/VekOpsAlgo) model-checked by TLC exhaustively per bit width; TLC-emitted result tables replayed into the real code (spec->code conformance)",
   text=("TLC checks exhaustively (every (x,lo,hi) of 5-bit types in quick, 8-bit in thorough) that the declarative operators satisfy the range laws of the "
